@@ -29,6 +29,8 @@ INT_BITS = {"char": 8, "schar": 8, "uchar": 8, "short": 16, "ushort": 16, "int":
 UNDER = {"td_int": "int", "td_uchar": "uchar", "td_ullong": "ullong", "td_td_short": "short",
          "uint8_t": "uchar", "int16_t": "short", "uint32_t": "uint", "int64_t": "long",
          "size_t": "ulong", "ptrdiff_t": "long", "uintptr_t": "ulong",
+         "int_fast16_t": "long", "uint_fast32_t": "ulong", "int_least16_t": "short", "uint_least8_t": "uchar",
+         "intmax_t": "long",
          "E_s": "int", "E_u": "uint", "E_l": "ulong"}
 ENUM_TAG = {"E_s", "E_u", "E_l"}
 
